@@ -1417,7 +1417,7 @@ fn ts_case(lf: &mut Lf, oc: &mut Oc, case: &TsCase, thorough: bool, value_limit:
         Ok(x) => x,
         Err(p) => { lf.fail("C15.json.total_size.no_panic", || format!("{head}: while building the file"), || p.clone()); return (1, false) }
     };
-    let desc = format!("{head} ({n} {}, padding comment of {pad} characters on the last entry of {})", case.way.unit(), TS_SECTIONS[case.way.pad_section()]);
+    let mut desc = format!("{head} ({n} {}, padding comment of {pad} characters on the last entry of {})", case.way.unit(), TS_SECTIONS[case.way.pad_section()]);
     let want_payloads = f.assertions.prefix.len() + f.assertions.bgpsec.len() + f.assertions.aspa.as_ref().map_or(0, |v| v.len());
     let mut t = TsTally { bad: Vec::new(), good: Vec::new(), ev: 0 };
     let mut writer_bad: Vec<(String, String)> = Vec::new();
@@ -1428,6 +1428,7 @@ fn ts_case(lf: &mut Lf, oc: &mut Oc, case: &TsCase, thorough: bool, value_limit:
     t.ev += 1;
     let s = match guard(|| f.to_string()) { Ok(s) => s, Err(p) => { lf.fail("C15.json.total_size.no_panic", || format!("{desc}: to_string"), || p.clone()); return (t.ev, false) } };
     let exact = s.len() == case.target();
+    if !exact { desc.push_str(&format!(" [the file was sized with to_writer into a counting sink; its to_string has {} octets]", s.len())) }
     bump(oc, if exact { "document-has-exactly-the-target-size" } else { "document-size-off-target" });
     // documents of other routes that differ from to_string's (none on the unchanged library)
     let mut others: Vec<(String, Vec<u8>)> = Vec::new();
